@@ -1,11 +1,12 @@
 import ZChain.Drv.Util
-import ZChain.Model.Replicators
+import ZChain.Model.NodePools
 /-! Line driver for the replicator model (C42).
-`new <numReplicators>` | `add <id: 64 lowercase hex> <pk>` | `pos` | `scores <hash>` | `isbs <hash> <id>` |
+`new <numReplicators>` | `add <id: 64 lowercase hex> <pk>` (fresh object into pool 0) | `obj <o> <id> <pk>` (a node object) |
+`padd <pool> <o>` (AddNode of that object; pool 0 = the magic block's sharders) | `pos` | `ppos <pool>` | `scores <hash>` | `isbs <hash> <id>` |
 `repl <hash> <id>` | `intop <hash> <id> <n>` | `intopn <hash> <id> <n>`
 A `<hash>` that is not hex stands for a block hash that does not decode. -/
 namespace ZChain.Drv.C42
-open ZChain.NodePool ZChain.Replicators
+open ZChain.NodePool ZChain.Replicators ZChain.NodePools
 
 def hexVal (c : Char) : Option Nat :=
   if '0' ≤ c ∧ c ≤ '9' then some (c.toNat - '0'.toNat)
@@ -35,53 +36,72 @@ def parseId (s : String) : Option Node :=
 
 structure St where
   nrepl : Int
-  pool  : List Node
+  w     : World
+  next  : Nat          -- object ids of the nodes made by `add`
 
 def showBool : Option Bool → String
   | none => "panic"
   | some true => "true"
   | some false => "false"
 
-def idxOf (pool : List Node) (n : Node) : String :=
-  match setIndexOf pool n.key with
-  | some i => toString i
-  | none => "?"
+/-- the top 32 bits of a node id (how the answers name a node). -/
+def id32 (key : Nat) : Nat := key / 2 ^ 224
 
-def showNodes (pool : List Node) : Option (Bool × List Node) → String
+/-- `<id32>:<SetIndex>` of the pool-0 node object with this key (the `SetIndex` is the object's current one). -/
+def idxOfKey (w : World) (key : Nat) : String :=
+  match (poolNodes w 0).find? (fun o => (nodeOf w o).key = key) with
+  | some o => s!"{id32 key}:{(getObj w o).setIndex}"
+  | none => s!"{id32 key}:?"
+
+def showNodes (w : World) : Option (Bool × List Node) → String
   | none => "panic"
-  | some (b, ns) => " ".intercalate ((if b then "true" else "false") :: ns.map (idxOf pool))
+  | some (b, ns) => " ".intercalate ((if b then "true" else "false") :: ns.map (fun n => idxOfKey w n.key))
+
+def showPos (w : World) (p : Nat) : String :=
+  " ".intercalate ("pos" :: (poolNodes w p).map (fun o => s!"{(nodeOf w o).key}:{(getObj w o).setIndex}"))
+
+def known (w : World) (o : Nat) : Bool := (objGet w.objs o).isSome
 
 def step (s : St) (ws : List String) : St × String :=
   match ws with
   | ["new", n] => match n.toInt? with
-    | some n => ({ nrepl := n, pool := [] }, "ok")
+    | some n => ({ nrepl := n, w := emptyWorld, next := 1000000 }, "ok")
     | none => (s, "bad-op")
   | ["add", id, _pk] => match parseId id with
-    | some nd => ({ s with pool := addNode s.pool nd }, "ok")
+    | some nd => ({ s with w := addNodeW (newObj s.w s.next nd) 0 s.next, next := s.next + 1 }, "ok")
     | none => (s, "bad-op")
-  | ["pos"] => (s, " ".intercalate ("pos" :: s.pool.map (fun nd => s!"{nd.key}:{idxOf s.pool nd}")))
-  | ["scores", h] => (s, match scoreHashString s.pool (parseHash h) with
+  | ["obj", o, id, _pk] => match o.toNat?, parseId id with
+    | some o, some nd => if o < 1000000 ∧ ¬ known s.w o then ({ s with w := newObj s.w o nd }, "ok") else (s, "bad-op")
+    | _, _ => (s, "bad-op")
+  | ["padd", p, o] => match p.toNat?, o.toNat? with
+    | some p, some o => if p < 8 ∧ known s.w o then ({ s with w := addNodeW s.w p o }, "ok") else (s, "bad-op")
+    | _, _ => (s, "bad-op")
+  | ["pos"] => (s, showPos s.w 0)
+  | ["ppos", p] => match p.toNat? with
+    | some p => if p < 8 then (s, showPos s.w p) else (s, "bad-op")
+    | none => (s, "bad-op")
+  | ["scores", h] => (s, match scoreHashStringW s.w 0 (parseHash h) with
       | none => "panic"
-      | some sc => " ".intercalate ("scores" :: sc.map (fun x => s!"{x.setIndex}:{x.score}")))
+      | some sc => " ".intercalate ("scores" :: sc.map (fun x => s!"{id32 x.node.key}:{x.setIndex}:{x.score}")))
   | ["isbs", h, id] => match parseId id with
-    | some nd => (s, showBool (isBlockSharder s.nrepl s.pool (parseHash h) nd.key))
+    | some nd => (s, showBool (isBlockSharderW s.nrepl s.w 0 (parseHash h) nd.key))
     | none => (s, "bad-op")
   | ["repl", h, id] => match parseId id with
-    | some nd => (s, showNodes s.pool (canShardBlockWithReplicators s.nrepl s.pool (parseHash h) nd.key))
+    | some nd => (s, showNodes s.w (canShardW s.nrepl s.w 0 (parseHash h) nd.key))
     | none => (s, "bad-op")
   | ["intop", h, id, n] => match parseId id, n.toInt? with
-    | some nd, some n => (s, match scoreHashString s.pool (parseHash h) with
+    | some nd, some n => (s, match scoreHashStringW s.w 0 (parseHash h) with
         | none => "panic"
         | some sc => showBool (isInTop sc n nd.key))
     | _, _ => (s, "bad-op")
   | ["intopn", h, id, n] => match parseId id, n.toInt? with
-    | some nd, some n => (s, match scoreHashString s.pool (parseHash h) with
+    | some nd, some n => (s, match scoreHashStringW s.w 0 (parseHash h) with
         | none => "panic"
-        | some sc => showNodes s.pool (isInTopWithNodes sc n nd.key))
+        | some sc => showNodes s.w (isInTopWithNodes sc n nd.key))
     | _, _ => (s, "bad-op")
   | _ => (s, "bad-op")
 
-def run : IO Unit := ZChain.Drv.runLoop step { nrepl := 0, pool := [] }
+def run : IO Unit := ZChain.Drv.runLoop step { nrepl := 0, w := emptyWorld, next := 1000000 }
 
 end ZChain.Drv.C42
 
